@@ -12,13 +12,13 @@ package keeper
 // nothing but token (c, i) changes in the token table, and its identity stays
 //@ define onlyToken(c, i) = nftTokens == set(old(nftTokens), c, i, TOK(c, i)) && TOK(c, i).Id == i && TOK(c, i).ClassId == c
 
-//@ func Keeper.Authorize
+//@ func Keeper.Authorize(ctx, denomID, tokenID, owner)
 //@   property C14
 //@   returns err
 //@   ensures owner_only: err == nil ==> owner == OWNER(denomID, tokenID)
 //@ end
 
-//@ func Keeper.SaveNFT
+//@ func Keeper.SaveNFT(ctx, denomID, tokenID, tokenNm, tokenURI, tokenUriHash, tokenData, receiver)
 //@   property C14
 //@   returns err
 //@   modifies nftTokens, nftOwner
@@ -26,7 +26,7 @@ package keeper
 //@   ensures minted:   err == nil ==> nftOwner == store(old(nftOwner), nftkey(denomID, tokenID), receiver) && onlyToken(denomID, tokenID) && has(nftTokens, denomID, tokenID)
 //@ end
 
-//@ func Keeper.UpdateNFT
+//@ func Keeper.UpdateNFT(ctx, denomID, tokenID, tokenNm, tokenURI, tokenURIHash, tokenData, owner)
 //@   property C14
 //@   returns err
 //@   modifies nftTokens
@@ -35,7 +35,7 @@ package keeper
 //@   ensures only_this: err == nil ==> nftTokens == old(nftTokens) || (old(has(nftTokens, denomID, tokenID)) && onlyToken(denomID, tokenID))
 //@ end
 
-//@ func Keeper.TransferOwnership
+//@ func Keeper.TransferOwnership(ctx, denomID, tokenID, tokenNm, tokenURI, tokenURIHash, tokenData, srcOwner, dstOwner)
 //@   property C14
 //@   returns err
 //@   modifies nftTokens, nftOwner
@@ -49,7 +49,7 @@ package keeper
 //@                                    && TOK(denomID, tokenID).UriHash == ite(tokenURIHash == KEEP, t0.UriHash, tokenURIHash)
 //@ end
 
-//@ func Keeper.RemoveNFT
+//@ func Keeper.RemoveNFT(ctx, denomID, tokenID, owner)
 //@   property C14
 //@   returns err
 //@   modifies nftTokens, nftOwner
@@ -57,7 +57,7 @@ package keeper
 //@   ensures removed:    err == nil ==> nftTokens == del(old(nftTokens), denomID, tokenID)
 //@ end
 
-//@ func Keeper.TransferDenomOwner
+//@ func Keeper.TransferDenomOwner(ctx, denomID, srcOwner, dstOwner)
 //@   property C14
 //@   returns err
 //@   modifies nftClasses
@@ -71,7 +71,7 @@ package keeper
 //@        && DMETA(get(nftClasses, denomID)).Schema == DMETA(c0).Schema
 //@ end
 
-//@ func Keeper.MintNFT
+//@ func Keeper.MintNFT(goCtx, msg)
 //@   property C14
 //@   returns resp, err
 //@   modifies nftTokens, nftOwner
@@ -80,7 +80,7 @@ package keeper
 //@ end
 
 // Message handlers: the authority that is checked is the message sender.
-//@ func Keeper.EditNFT
+//@ func Keeper.EditNFT(goCtx, msg)
 //@   property C14
 //@   returns resp, err
 //@   modifies nftTokens
@@ -88,7 +88,7 @@ package keeper
 //@   ensures not_restricted: err == nil ==> !DMETA(get(nftClasses, msg.DenomId)).UpdateRestricted
 //@ end
 
-//@ func Keeper.TransferNFT
+//@ func Keeper.TransferNFT(goCtx, msg)
 //@   property C14
 //@   returns resp, err
 //@   modifies nftTokens, nftOwner
@@ -97,7 +97,7 @@ package keeper
 //@   ensures restricted_keeps_metadata: err == nil && DMETA(get(nftClasses, msg.DenomId)).UpdateRestricted ==> nftTokens == old(nftTokens)
 //@ end
 
-//@ func Keeper.BurnNFT
+//@ func Keeper.BurnNFT(goCtx, msg)
 //@   property C14
 //@   returns resp, err
 //@   modifies nftTokens, nftOwner
@@ -105,7 +105,7 @@ package keeper
 //@   ensures removed:    err == nil ==> nftTokens == del(old(nftTokens), msg.DenomId, msg.Id)
 //@ end
 
-//@ func Keeper.TransferDenom
+//@ func Keeper.TransferDenom(goCtx, msg)
 //@   property C14
 //@   returns resp, err
 //@   modifies nftClasses
